@@ -16,7 +16,7 @@ import ast
 from typing import Any, Dict, List, Optional, Tuple
 
 from ..cfg import cfg_of
-from ..flow import Sym, fpaths, attr_effects
+from ..flow import Sym, fpaths, attr_effects, allfacts
 from ..model import FuncInfo, attr_chain, norm, walk_no_nested
 from ..report import Checker
 from .c02 import pipeline_reset_check
@@ -133,7 +133,7 @@ def run(ch: Checker) -> None:
             if comp is None:
                 continue
             n += 1
-            fd = dict(p.facts())
+            fd = allfacts(p)
             upgrade = any(k.endswith('is_connection_upgrade') and v is True for k, v in fd.items())
             resets = [i for i, st in p.stmts() if i > comp and isinstance(st, ast.Assign) and attr_chain(st.targets[0]) == 'self.pipeline_request' and norm(st.value) == 'None']
             if not resets and not upgrade:
@@ -149,7 +149,7 @@ def run(ch: Checker) -> None:
         if p.exit_kind != 'return':
             continue
         n += 1
-        fd = dict(p.facts())
+        fd = allfacts(p)
         comp = fd.get('self.pipeline_response.is_complete')
         resets = [i for i, st in p.stmts() if isinstance(st, ast.Assign) and attr_chain(st.targets[0]) == 'self.pipeline_response' and norm(st.value) == 'None']
         if bool(resets) != bool(comp):
